@@ -443,6 +443,9 @@ func (tr *FnTrans) frameChecks() {
 		}
 		tr.syntactic("frame:global-invariant", "package variables in ["+src+"] are assigned only by package initialisation", probs)
 	}
+	for _, oc := range tr.onlyChecks {
+		tr.syntactic("site-only["+oc.sd.Alias+"]", "the function calls "+oc.sd.Pattern+" at exactly one place, outside any loop (at most once per execution)", oc.probs)
+	}
 	if tr.c != nil && len(tr.c.Private) > 0 {
 		tr.syntactic("frame:private", "objects of private variables ("+strings.Join(tr.c.Private, ", ")+") are freshly allocated and never handed on", tr.privateViolations())
 	}
@@ -528,11 +531,46 @@ func escapes(al *ssa.Alloc) bool {
 }
 
 func escapesRec(al *ssa.Alloc, busy map[*ssa.Alloc]bool) bool {
-	if busy[al] {
-		return false
+	return escapesFromRec(al, al, busy)
+}
+
+// escapingFields: for a struct variable that escapes only through pointers to some of its fields,
+// the set of (top-level) fields such a pointer is taken of; ok is false when the variable escapes
+// as a whole. A pointer to one field gives no access to its siblings.
+func escapingFields(al *ssa.Alloc) (fields map[int]bool, ok bool) {
+	fields = map[int]bool{}
+	refs := al.Referrers()
+	if refs == nil {
+		return nil, false
 	}
-	busy[al] = true
-	defer delete(busy, al)
+	for _, r := range *refs {
+		switch x := r.(type) {
+		case *ssa.DebugRef, *ssa.UnOp:
+		case *ssa.Store:
+			if x.Val == ssa.Value(al) {
+				return nil, false
+			}
+		case *ssa.FieldAddr:
+			if escapesFromRec(al, x, map[*ssa.Alloc]bool{}) {
+				fields[x.Field] = true
+			}
+		default:
+			return nil, false
+		}
+	}
+	return fields, true
+}
+
+// escapesFromRec: may the address `start` (the variable's own address or one derived from it) become
+// known to code outside the function?
+func escapesFromRec(al *ssa.Alloc, start ssa.Value, busy map[*ssa.Alloc]bool) bool {
+	if start == ssa.Value(al) {
+		if busy[al] {
+			return false
+		}
+		busy[al] = true
+		defer delete(busy, al)
+	}
 	seen := map[ssa.Value]bool{}
 	var derived func(v ssa.Value) bool
 	derived = func(v ssa.Value) bool {
@@ -625,7 +663,7 @@ func escapesRec(al *ssa.Alloc, busy map[*ssa.Alloc]bool) bool {
 		}
 		return false
 	}
-	return derived(al)
+	return derived(start)
 }
 
 // closureOnlyReads: every use, inside the closure body, of the free variable bound to v is a load.
